@@ -90,6 +90,7 @@ class Family:
     depth_max: int = 2
     exp: bool = False
     range_arg: str = "2"
+    for_k_max: int = 99                       # `for` statements only up to this size (cost: ~60 ms each)
     tags: tuple = ()
 
     def __post_init__(self):
@@ -254,7 +255,7 @@ def _stmts(F, env, k, depth, inloop, lvl):
             continue
         benv = env
         if kind == "for":
-            if "i" not in F.idx:
+            if "i" not in F.idx or k > F.for_k_max:
                 continue
             e = list(env)
             e[F.idx["i"]] = "L"
@@ -329,6 +330,12 @@ def enumerate_family(F, n_max=None, depth_max=None):
 
 
 # ------------------------------------------------------------------------ families
+def _fk(thorough):
+    """`for` loops cost ~60 ms each to compile (range iterator): the quick tier only
+    enumerates `for` statements with a one-statement body (all of them)."""
+    return 99 if thorough else 2
+
+
 def _ret(expr):
     return lambda env: [f"return {expr}"]
 
@@ -361,7 +368,7 @@ def fam_cf(thorough):
         [Var("a", "bool", "L"), Var("b", "bool", "L"), Var("x", "int", "L"), Var("y", "int", "L"),
          Var("z", "int"), Var("t", "tup"), Var("w", "float"), Var("i", "int")],
         atoms, _ret("x"), compounds=comp, n_max=4 if thorough else 3,
-        depth_max=3 if thorough else 2)
+        depth_max=3 if thorough else 2, for_k_max=_fk(thorough))
 
 
 def _lin_epilogue(env):
@@ -403,8 +410,8 @@ def fam_lin(thorough):
          Var("m", "bool"), Var("i", "int")],
         atoms, _lin_epilogue,
         header="@guppy.declare\ndef op(q: qubit @owned) -> qubit: ...\n\n",
-        compounds=comp, n_max=4 if thorough else 3, depth_max=3 if thorough else 2,
-        tags=("linear",))
+        compounds=comp, n_max=4, depth_max=3 if thorough else 2,
+        for_k_max=_fk(thorough), tags=("linear",))
 
 
 def fam_linb(thorough):
@@ -498,7 +505,8 @@ def fam_struct(thorough):
          Var("q", "qubit"), Var("t", "S"), Var("i", "int")],
         atoms, ep, header=STRUCT_HDR,
         compounds=("if", "ifelse", "while", "for") + (("whiletrue",) if thorough else ()),
-        n_max=4 if thorough else 3, depth_max=3 if thorough else 2, tags=("struct", "linear"))
+        n_max=4, depth_max=3 if thorough else 2, for_k_max=_fk(thorough),
+        tags=("struct", "linear"))
 
 
 def fam_structb(thorough):
@@ -554,7 +562,8 @@ def fam_arr(thorough):
         [Var("a", "bool", "L"), Var("b", "bool", "L"), Var("i", "int", "L"), Var("x", "int", "L"),
          Var("xs", "arr"), Var("ys", "arr")],
         atoms, _ret("x"), compounds=("if", "ifelse", "while", "for"),
-        n_max=4 if thorough else 3, depth_max=3 if thorough else 2, range_arg="3", tags=("array",))
+        n_max=4 if thorough else 3, depth_max=3 if thorough else 2, range_arg="3",
+        for_k_max=_fk(thorough), tags=("array",))
 
 
 def fam_arrr(thorough):
@@ -607,7 +616,7 @@ def fam_arrq(thorough):
         [Var("a", "bool", "L"), Var("b", "bool", "L"), Var("qs", "qarr", "L"), Var("rs", "qarr"),
          Var("i", "int", "L"), Var("ms", "arr")],
         atoms, ep, compounds=("if", "ifelse", "while", "for"),
-        n_max=4 if thorough else 3, depth_max=2, tags=("array", "linear"))
+        n_max=4 if thorough else 3, depth_max=2, for_k_max=_fk(thorough), tags=("array", "linear"))
 
 
 def fam_arrs(thorough):
@@ -630,7 +639,7 @@ def fam_arrs(thorough):
          Var("x", "int", "L"), Var("ys", "arr"), Var("i", "int")],
         atoms, ep, header="@guppy.struct\nclass SA:\n    xs: array[int, 2]\n    n: int\n\n",
         compounds=("if", "ifelse", "while", "for"),
-        n_max=4 if thorough else 3, depth_max=2, tags=("struct", "array"))
+        n_max=4 if thorough else 3, depth_max=2, for_k_max=_fk(thorough), tags=("struct", "array"))
 
 
 GEN_HDR = '''@guppy
@@ -728,7 +737,7 @@ def fam_polyl(thorough, variant):
     vs = [Var("a", "bool", "L"), Var("b", "bool", "L"), Var("x", "T", "L"), Var("y", "T", "L"),
           Var("i", "int")]
     kw = dict(header=POLY_HDR, compounds=("if", "ifelse", "while") + (("whiletrue",) if thorough else ()),
-              n_max=4 if thorough else 3, depth_max=2)
+              n_max=4 if thorough or variant == "poly" else 3, depth_max=2)
     if variant == "poly":
         return Family("polyl", "@guppy\ndef main[T](a: bool, b: bool, x: T @owned, y: T @owned) -> T:",
                       vs, _polyl_atoms(), _polyl_ep, tags=("generic-body", "polymorphic", "linear"), **kw)
@@ -784,8 +793,8 @@ def fam_polyn(thorough, variant):
     ]
     vs = [Var("a", "bool", "L"), Var("b", "bool", "L"), Var("x", "int", "L"), Var("xs", "arr", "L"),
           Var("ys", "arr"), Var("i", "int")]
-    kw = dict(compounds=("if", "ifelse", "while", "for"), n_max=4 if thorough else 3, depth_max=2,
-              range_arg="n")
+    kw = dict(compounds=("if", "ifelse", "while", "for"), depth_max=2, range_arg="n",
+              n_max=4 if thorough else (3 if variant == "gen" else 2), for_k_max=_fk(thorough))
     if variant == "gen":
         return Family("polyn", "@guppy\ndef main[n: nat](a: bool, b: bool, x: int, xs: array[int, n] @owned) -> int:",
                       vs, atoms, _ret("x"), tags=("generic-body", "polymorphic", "nat-param"), **kw)
@@ -837,9 +846,9 @@ def fam_nestq(thorough):
     """Nested function taking / returning qubits (non-capturing), called in branches."""
     atoms = [
         A("def f(r: qubit @owned) -> qubit:\n    h(r)\n    return r", None, {"f": "L"}, tag="nested-def"),
-        A("def f(r: qubit) -> None:\n    if a:\n        h(r)", None, {"f": "L"}, tag="closure", exp=True),
+        A("def g(r: qubit) -> None:\n    if a:\n        h(r)", None, {"g": "L"}, tag="closure", exp=True),
         A("q = f(q)", {"f": "L", "q": "L"}, tag="nested-call"),
-        A("f(q)", {"f": "L", "q": "L"}, tag="nested-call"),
+        A("g(q)", {"g": "L", "q": "L"}, tag="nested-call"),
         A("discard(q)", {"q": "L"}, {"q": "D"}, tag="consume"),
         A("q = qubit()", {"q": "D"}, {"q": "L"}, tag="alloc"),
         A("return q", {"q": "L"}, {"q": "D"}, kind="return"),
@@ -850,81 +859,171 @@ def fam_nestq(thorough):
     return Family(
         "nestq", "@guppy\ndef main(a: bool, b: bool, q: qubit @owned) -> qubit:",
         [Var("a", "bool", "L"), Var("b", "bool", "L"), Var("q", "qubit", "L"), Var("f", "fn"),
-         Var("i", "int")],
+         Var("g", "fn"), Var("i", "int")],
         atoms, ep, compounds=("if", "ifelse", "while"),
         n_max=4 if thorough else 3, depth_max=2, tags=("nested", "linear"))
 
 
 # --------------------------------------------------------------- explicit products
-EXPR_STMTS = [
+# Feature statements: each one is self-contained in the environment of FEAT_SIG (it
+# restores every borrowed value it touches and consumes every linear local it makes).
+FEAT_STMTS = [
+    # --- tuples / structs / options holding linear values
+    ("tuple-lin", "tq = (qubit(), qubit())\nh(tq[0])\ncx(tq[0], tq[1])\nq1, q2 = tq\ndiscard(q1)\ndiscard(q2)"),
+    ("tuple-lin-partial", "tq = (qubit(), x)\ndiscard(tq[0])\nx = tq[1]"),
+    ("tuple-lin-nested", "tq = ((qubit(), 1), qubit())\n(q1, k), q2 = tq\ndiscard(q1)\ndiscard(q2)\nx += k"),
+    ("tuple-lin-index-move", "tq = (qubit(), qubit())\nq1 = tq[0]\ndiscard(tq[1])\ndiscard(q1)"),
+    ("option-int", "o: Option[int] = some(x)\nif o.is_some():\n    x = o.unwrap()"),
+    ("option-qubit", "oq = some(qubit())\ndiscard(oq.unwrap())"),
+    ("option-nothing", "on: Option[qubit] = nothing()\non.unwrap_nothing()"),
+    ("option-take", "ot: Option[int] = some(y)\nx = ot.take().unwrap()"),
+    ("struct-lin-new", "s1 = S(x, qubit())\nh(s1.q)\ndiscard(s1.q)"),
+    ("struct-lin-unpack-call", "s1 = S(x, qubit())\nx = eat(s1)"),
+    ("struct-borrow-call", "touch(s)"),
+    ("struct-field-swap", "r1 = s.q\nh(r1)\ns.q = r1"),
+    ("struct-field-realloc", "discard(s.q)\ns.q = qubit()"),
+    ("struct-field-read", "x = s.n + sa.n"),
+    ("struct-arr-field-write", "sa.xs[0] = x"),
+    ("struct-arr-field-assign", "sa.xs = array(x, y)"),
+    ("struct-arr-field-read", "x = sa.xs[1]"),
+    ("struct-arr-field-move", "tmp = sa.xs\nsa.xs = tmp"),
+    ("struct-generic", "pr = Pair(x, qubit())\nh(pr.b)\nx = pr.a\ndiscard(pr.b)"),
+    ("struct-nested", "ns = NS(S(x, qubit()), y)\nh(ns.s.q)\ndiscard(ns.s.q)\nns.s.q = qubit()\nx = eat(ns.s)"),
+    # --- arrays
+    ("arr-borrowed-read", "x = xs[0] + xs[y]"),
+    ("arr-borrowed-write", "xs[0] = x\nxs[y] = 1"),
+    ("arr-swap-unpack", "xs[0], xs[1] = xs[1], xs[0]"),
+    ("arr-aug-subscript", "xs[0] += 1"),
+    ("arr-copy", "ys = xs.copy()\nx = ys[0]"),
+    ("arr-len", "x = len(xs) + len(qs)"),
+    ("arr-2d", "xss = array(array(1, 2), array(3, 4))\nxss[0][1] = x\nx = xss[1][0]"),
+    ("arr-2d-row", "xss = array(array(1, 2), array(3, 4))\nxss[0] = array(x, y)\nx = xss[0][0]"),
+    ("arr-of-struct", "ss = array(S(1, qubit()), S(2, qubit()))\nh(ss[0].q)\nfor e in ss:\n    discard(e.q)"),
+    ("arr-of-tuple", "ts = array((1, True), (2, False))\nk, c = ts[1]\nx += k"),
+    ("arr-comp", "zs = array(i + x for i in range(3))\nx = zs[1]"),
+    ("arr-comp-over-arr", "zs = array(v + 1 for v in xs.copy())\nx = zs[0]"),
+    ("arr-comp-nested", "m = array(array(i * j for i in range(2)) for j in range(3))\nx = m[1][1]"),
+    ("arr-comp-qubits", "rs = array(qubit() for _ in range(3))\nh(rs[1])\ndiscard_array(rs)"),
+    ("arr-measure", "ms = measure_array(array(qubit() for _ in range(2)))\nif ms[0]:\n    x = 1"),
+    ("arr-for-consume", "for r in array(qubit(), qubit()):\n    discard(r)"),
+    ("arr-for-break", "for row in array(array(1, 2), array(3, 4)):\n    x += row[0]\n    if a:\n        break"),
+    ("arr-for-int", "for v in array(1, 2, 3):\n    x += v"),
+    ("arr-unpack", "u, v, w = array(1, 2, 3)\nx = u + v + w"),
+    ("arr-unpack-star", "u, *rest = array(1, 2, 3)\nx = u + rest[0]"),
+    ("arr-qs-borrow", "h(qs[0])\ncx(qs[0], qs[2])\nh(qs[x])"),
+    ("arr-qs-swap", "mem_swap(qs[0], qs[1])"),
+    ("arr-drop", "dd = array(x, y)"),
+    ("arr-generic-call", "x = first(xs) + size(xs) + size(qs)"),
+    # --- qubits
+    ("mem-swap", "r1 = qubit()\nmem_swap(q, r1)\ndiscard(r1)"),
+    ("owned-call", "r1 = qubit()\nr1 = op(r1)\ndiscard(r1)"),
+    ("qubit-temp", "discard(qubit())"),
+    ("measure-cond", "if measure(qubit()):\n    x = 1"),
+    ("measure-while", "while measure(qubit()):\n    x += 1"),
+    ("ifexp-linear", "r1 = qubit() if a else op(qubit())\ndiscard(r1)"),
+    ("short-circuit-linear", "c = a and measure(qubit())\nif c or measure(qubit()):\n    x = 0"),
+    ("reset-borrow", "reset(q)\nh(q)\ncx(q, qs[1])"),
+    ("tuple-fn-lin", "r1, k = mkq(x)\ndiscard(r1)\nx = k"),
+    ("barrier", "barrier(q, qs[0])"),
+    # --- functions
+    ("fn-value", "f = helper\nx = f(x, y)"),
+    ("fn-ifexp", "f = helper if a else helper2\nx = f(x, y)"),
+    ("higher-order", "x = apply(helper, x)"),
+    ("higher-order-nested", "def loc(u: int, v: int) -> int:\n    return u - v\nx = apply(loc, x)"),
+    ("generic-call", "x = ident(x)\nr1 = ident(qubit())\ndiscard(r1)"),
+    ("generic-explicit", "x = ident[int](x)"),
+    ("generic-fn-value", "f = ident[int]\nx = f(x)"),
+    ("nested-def", "def loc(v: int) -> int:\n    return v + 1\nx = loc(x)"),
+    ("nested-def-borrow", "def loc(r: qubit) -> None:\n    h(r)\nloc(q)\nloc(qs[0])\nloc(s.q)"),
+    ("nested-def-cf", "def loc(v: int, c: bool) -> int:\n    while c:\n        if v > 3:\n            return v\n        v += 1\n    return 0\nx = loc(x, a)"),
+    ("nested-generic-use", "def loc(v: int) -> int:\n    return ident(v)\nx = loc(x)"),
+    ("closure", "def loc(v: int) -> int:\n    return v + y\nx = loc(x)", True),
+    ("closure-modified", "def loc(v: int) -> int:\n    return v + y\ny += 1\nx = loc(x)", True),
+    ("method-call", "x = P2(x, y).sum()"),
+    ("call-toplevel", "x = helper(x, y)"),
+    ("call-bool", "c = pred(x)\nif c:\n    x = 0"),
+    ("none-fn", "noop()"),
+    ("recursion", "x = fact(x)"),
+    ("comptime-arg-call", "x = ct(3) + cst[2]()"),
+    # --- classical expression kinds
     ("ifexp", "x = y if a else x"),
     ("ifexp-nested", "x = (y if a else x) if b else (x if a else 0)"),
     ("walrus", "x = (z := y + 1) * z"),
     ("walrus-cond", "if (z := x + 1) > y:\n    x = z"),
+    ("not-walrus", "if not (c := x > 0):\n    x = 1\nif c:\n    x = 2"),
     ("augassign", "x += y\nx -= 1\nx *= 2\nx //= 3\nx %= 5\nx <<= 1\nx >>= 1\nx |= 1\nx &= 7\nx ^= y"),
     ("float", "w = 1.5\nw = w * x + w / 2.0\nx = int(w)"),
     ("pow", "x = x ** 2"),
+    ("conversions", "w = float(x)\nk = nat(3)\nc = bool(x)\nx = int(w) + int(k) + int(c)"),
+    ("num-builtins", "x = abs(x)\nu, v = divmod(x, 3)\nx = u + v\nw2 = pow(2, 3)\nw3 = round(1.5)"),
     ("tuple-nested", "t = ((x, y), (a, 1.5))\n(x, y), (c, w) = t"),
     ("tuple-swap", "x, y = y, x"),
     ("tuple-star", "x, *r = (x, y, 3)\ny, z = r"),
     ("tuple-index", "t = (x, y)\nx = t[1]"),
+    ("underscore", "_ = x\n_, x = (1, y)"),
     ("boolops", "c = a and b or not a\nif c and (x > y or x == 0):\n    x = 1"),
     ("compare-chain", "if 0 <= x < y:\n    x = y"),
     ("unary", "x = -x + +y + ~x"),
-    ("nat", "k = nat(3)\nx = int(k + nat(1))"),
-    ("array-comp", "xs = array(i + x for i in range(3))\nx = xs[1]"),
-    ("array-nested", "xss = array(array(1, 2), array(3, 4))\nx = xss[1][0]"),
-    ("array-for", "for v in array(1, 2, 3):\n    x += v"),
     ("range-2", "for i in range(1, 4):\n    x += i"),
-    ("call-toplevel", "x = helper(x, y)"),
-    ("call-bool", "c = pred(x)\nif c:\n    x = 0"),
-    ("result", "result(\"t\", x)\nresult(\"u\", a)\nresult(\"v\", 1.5)"),
+    ("result", "result(\"t\", x)\nresult(\"u\", a)\nresult(\"v\", 1.5)\nresult(\"w\", xs)"),
     ("panic", "if x > 100:\n    panic(\"boom\")"),
     ("exit", "if x > 100:\n    exit(\"bye\", 1)"),
-    ("none-fn", "noop()"),
-    ("string", "s = \"hello\""),
+    ("string", "st = \"hello\""),
     ("pass", "pass"),
     ("docstring-expr", "\"a docstring-like expression statement\""),
-    ("not-walrus", "if not (c := x > 0):\n    x = 1\nif c:\n    x = 2"),
     ("while-cond-expr", "while x < y and a:\n    x += 1"),
-    ("while-else-free", "while x > 0:\n    x -= 1\n    if x == 3:\n        break"),
-    ("qubit-temp", "discard(qubit())"),
-    ("measure-cond", "if measure(qubit()):\n    x = 1"),
-    ("struct-temp", "x = P2(x, y).u"),
-    ("struct-method", "x = P2(x, y).sum()"),
-    ("tuple-fn-ret", "x, y = swap2(x, y)"),
-    ("arr-param-len", "x = len(array(1, 2, 3))"),
+    ("while-break-deep", "while x > 0:\n    x -= 1\n    if x == 3:\n        break"),
     ("int-div-float", "w = x / y"),
     ("mixed-arith", "w = x + 1.5"),
     ("comptime-expr", "x = comptime(1 + 2)"),
+    ("comptime-list", "cs = comptime([1, 2, 3])\nx = cs[0]"),
+    ("annotated-assign", "k: int = x\nw: float = 1.0\nx = k"),
+    # --- modifiers (experimental)
+    ("with-control", "with control(q):\n    h(qs[0])", True),
+    ("with-dagger", "with dagger:\n    h(q)", True),
+    ("with-power", "with power(2):\n    h(q)", True),
 ]
 
-EXPR_CONTEXTS = [
+FEAT_CONTEXTS = [
     ("plain", "{S}"),
     ("in-if", "if a:\n    {S}"),
     ("in-else", "if a:\n    pass\nelse:\n    {S}"),
     ("in-while", "while b:\n    {S}\n    if a:\n        break"),
     ("in-for", "for j in range(2):\n    {S}"),
+    ("in-while-true", "while True:\n    {S}\n    if a:\n        return x"),
     ("after-return", "if a:\n    return x\n    {S}"),
     ("after-break", "while b:\n    break\n    {S}"),
-    ("in-nested-fn", "def inner(a: bool, b: bool, x: int, y: int) -> int:\n    {S}\n    return x\nx = inner(a, b, x, y)"),
+    ("in-nested-fn", "def inner(" + "{PARAMS}" + ") -> int:\n    {S}\n    return x\nx = inner(a, b, x, y, q, qs, xs, s, sa)"),
 ]
 
-EXPR_HDR = '''@guppy
-def helper(u: int, v: int) -> int:
-    return u * v
+FEAT_PARAMS = "a: bool, b: bool, x: int, y: int, q: qubit, qs: array[qubit, 3], xs: array[int, 3], s: S, sa: SA"
 
-@guppy
-def pred(u: int) -> bool:
-    return u > 0
+FEAT_HDR = """from guppylang.std.option import Option, nothing, some
+from guppylang.std.builtins import mem_swap, abs, round, divmod, pow, len
+from collections.abc import Callable
+dagger = object()
+control = object()
+power = object()
 
-@guppy
-def noop() -> None:
-    pass
+@guppy.struct
+class S:
+    n: int
+    q: qubit
 
-@guppy
-def swap2(u: int, v: int) -> tuple[int, int]:
-    return v, u
+@guppy.struct
+class SA:
+    xs: array[int, 2]
+    n: int
+
+@guppy.struct
+class NS:
+    s: S
+    k: int
+
+@guppy.struct
+class Pair[A, B]:
+    a: A
+    b: B
 
 @guppy.struct
 class P2:
@@ -935,12 +1034,74 @@ class P2:
     def sum(self: "P2") -> int:
         return self.u + self.v
 
-'''
+@guppy
+def helper(u: int, v: int) -> int:
+    return u * v
+
+@guppy
+def helper2(u: int, v: int) -> int:
+    return u + v
+
+@guppy
+def pred(u: int) -> bool:
+    return u > 0
+
+@guppy
+def noop() -> None:
+    pass
+
+@guppy
+def fact(u: int) -> int:
+    if u <= 1:
+        return 1
+    return u * fact(u - 1)
+
+@guppy
+def apply(f: Callable[[int, int], int], u: int) -> int:
+    return f(u, 1)
+
+@guppy
+def eat(v: S @owned) -> int:
+    discard(v.q)
+    return v.n
+
+@guppy
+def touch(v: S) -> None:
+    h(v.q)
+
+@guppy.declare
+def op(r: qubit @owned) -> qubit: ...
+
+@guppy
+def mkq(u: int) -> tuple[qubit, int]:
+    return qubit(), u + 1
+
+@guppy
+def ident[T](v: T @owned) -> T:
+    return v
+
+@guppy
+def first[T: Copy, n: nat](vs: array[T, n]) -> T:
+    return vs[0]
+
+@guppy
+def size[T, n: nat](vs: array[T, n]) -> int:
+    return int(n)
+
+@guppy
+def cst[n: nat]() -> int:
+    return int(n)
+
+@guppy
+def ct(n: nat @comptime) -> int:
+    return int(n) + 1
+
+"""
 
 
 def _subst(ctx, stmt):
     out = []
-    for ln in ctx.split("\n"):
+    for ln in ctx.replace("{PARAMS}", FEAT_PARAMS).split("\n"):
         if "{S}" in ln:
             ind = ln[: len(ln) - len(ln.lstrip(" "))]
             out.extend(ind + s for s in stmt.split("\n"))
@@ -949,17 +1110,31 @@ def _subst(ctx, stmt):
     return out
 
 
-def fam_expr(thorough):
+def _feat_prog(c, stmts, fam):
+    """c: (name, context template); stmts: FEAT_STMTS entries placed in sequence."""
+    cname, ctx = c
+    text = "\n".join(st[1] for st in stmts)
+    exp = any(len(st) > 2 and st[2] for st in stmts) or cname == "in-nested-fn"
+    lines = _subst(ctx, text) + ["return x"]
+    body = "\n".join("    " + ln for ln in lines)
+    src = HEADER + FEAT_HDR + "@guppy\ndef main(" + FEAT_PARAMS + ") -> int:\n" + body + "\n"
+    depth = max((len(ln) - len(ln.lstrip(" "))) // 4 for ln in lines)
+    return Prog(fam, src, "main", exp, (len(lines) - 1, depth, 4),
+                tuple("feat:" + st[0] for st in stmts) + ("ctx:" + cname,))
+
+
+def fam_feat(thorough):
+    """Explicit product: every feature statement x every placement context; thorough adds
+    all ordered PAIRS of feature statements (plain and inside a loop)."""
     out = []
-    ctxs = EXPR_CONTEXTS if thorough else EXPR_CONTEXTS[:6]
-    for cname, ctx in ctxs:
-        for sname, stmt in EXPR_STMTS:
-            lines = _subst(ctx, stmt) + ["return x"]
-            body = "\n".join("    " + ln for ln in lines)
-            src = HEADER + EXPR_HDR + "@guppy\ndef main(a: bool, b: bool, x: int, y: int) -> int:\n" + body + "\n"
-            depth = max((len(ln) - len(ln.lstrip(" "))) // 4 for ln in lines)
-            out.append(Prog("expr", src, "main", False, (len(lines) - 1, depth, 4),
-                            ("expr:" + sname, "ctx:" + cname)))
+    for c in FEAT_CONTEXTS:
+        for st in FEAT_STMTS:
+            out.append(_feat_prog(c, [st], "feat"))
+    if thorough:
+        for c in (FEAT_CONTEXTS[0], FEAT_CONTEXTS[3]):
+            for s1 in FEAT_STMTS:
+                for s2 in FEAT_STMTS:
+                    out.append(_feat_prog(c, [s1, s2], "feat2"))
     return out
 
 
@@ -1054,7 +1229,7 @@ def programs(tier: str = "quick") -> list:
     progs = []
     for F in families(thorough):
         progs.extend(enumerate_family(F))
-    progs.extend(fam_expr(thorough))
+    progs.extend(fam_feat(thorough))
     progs.extend(fam_drops(thorough))
     progs.extend(fam_entries(thorough))
     progs.sort(key=lambda p: p.size)      # stable: keeps family / enumeration order inside a size
@@ -1069,7 +1244,7 @@ def bases(tier: str = "quick", max_stmts: int = 1) -> list:
     progs = programs("quick")
     out, seen_src, seen_tag = [], set(), set()
     for p in progs:
-        take = p.size[0] <= max_stmts and p.family not in ("expr", "drops")
+        take = p.size[0] <= max_stmts and p.family not in ("feat", "feat2", "drops")
         for t in p.tags:
             if (p.family, t) not in seen_tag:
                 seen_tag.add((p.family, t))
@@ -1085,3 +1260,34 @@ def family_counts(progs) -> dict:
     for p in progs:
         d[p.family] = d.get(p.family, 0) + 1
     return d
+
+
+# ------------------------------------------------- owning the worklist nondeterminism
+class _DetQueue:
+    """Deterministic stand-in for the `set` worklist of cfg/analysis.py (hook H1):
+    pops the basic block with the smallest index.  Any pop order is a legitimate
+    behaviour of `set.pop()`; fixing one makes driver counts reproducible (the analyses'
+    results are NOT order-independent for CFGs with dead code -- see C09/C10)."""
+
+    def __init__(self, items):
+        self.s = set(items)
+
+    def __len__(self):
+        return len(self.s)
+
+    def pop(self):
+        bb = min(self.s, key=lambda b: b.idx)
+        self.s.remove(bb)
+        return bb
+
+    def update(self, it):
+        self.s.update(it)
+
+
+def install_deterministic_worklist() -> bool:
+    """Returns True if hook H1 exists and the scheduler was installed."""
+    import guppylang_internals.cfg.analysis as an
+    if getattr(an, "_VERIF_ON", False) and hasattr(an, "_VERIF_SCHED"):
+        an._VERIF_SCHED = lambda queue, analysis: _DetQueue(queue)
+        return True
+    return False
